@@ -503,6 +503,10 @@ pub fn build_small() -> Corpus {
     ];
     let mut items: Vec<(String, Vec<String>)> = Vec::new();
     for (n, t) in crate::c19::pool() {
+        // templates that carry comment tokens belong to C19 only (a comment is not a token of the layout space)
+        if t.split(' ').any(|x| x.starts_with("//") || x.starts_with("/*")) {
+            continue;
+        }
         items.push((n.to_string(), t.split(' ').filter(|x| !x.is_empty()).map(|x| x.replace('#', "0").replace('~', " ")).collect()));
     }
     for (n, t) in extra {
